@@ -1336,6 +1336,8 @@ class Frame:
             return bound_native(I, self, fv, args, kwargs, n)
         if isinstance(fv, BoundOpaque):
             return fv.obj.opaque_methods[fv.name](I, fv.obj, args, kwargs)
+        if isinstance(fv, Obj) and '__call__' in fv.opaque_methods:
+            return fv.opaque_methods['__call__'](I, fv, args, kwargs)
         raise Unsupported('call of %r' % (fv,), n, self.module.relpath)
 
 
@@ -1690,6 +1692,8 @@ def bound_native(I, fr, bn, args, kwargs, n):
             else:
                 b.items.append(v)
             return None
+        if name == 'dot' and getattr(b, 'is_array', False):
+            return _np_dot(I, fr, [b, args[0]], {}, n)
         if name == 'transpose' and getattr(b, 'is_array', False):
             axes = args[0] if len(args) == 1 and isinstance(args[0], ListV) else ListV(list(args))
             return nd_transpose(b, [_as_int(a, n) for a in axes.items])
@@ -2212,6 +2216,35 @@ def nd_transpose(v, axes):
     return build([])
 
 
+def _namedtuple(I, fr, args, kwargs, n):
+    tname, fields = args[0], args[1]
+    if not isinstance(fields, ListV) or not all(isinstance(f, str) for f in fields.items):
+        raise Unsupported('namedtuple fields', n)
+    names = list(fields.items)
+
+    class NT:
+        pass
+    maker = Obj('namedtuple:%s' % tname)
+
+    def make(I_, o, a, k):
+        vals = list(a)
+        r = Obj('%s()' % tname, closed=True)
+        for nm, v in zip(names, vals):
+            r.attrs[nm] = v
+        for nm, v in k.items():
+            r.attrs[nm] = v
+        if set(r.attrs) != set(names):
+            raise _RaisedExc(Raised('TypeError', n))
+        r.attrs['__fields__'] = ListV(list(names))
+        return r
+    maker.opaque_methods['__call__'] = make
+    return maker
+
+
+def _itertools_repeat(I, fr, args, kwargs, n):
+    return ListV([args[0]] * _as_int(args[1], n))
+
+
 def _np_isclose(I, fr, args, kwargs, n):
     a, b = args[0], args[1]
     if isinstance(a, Rat) and isinstance(b, Rat):
@@ -2551,6 +2584,8 @@ NATIVE = {
     'numpy.roots': _np_roots,
     'numpy.mean': _np_mean,
     'numpy.isclose': _np_isclose,
+    'collections.namedtuple': _namedtuple,
+    'itertools.repeat': _itertools_repeat,
     'numpy.argmin': _arg_extremum('min'),
     'numpy.nanargmin': _arg_extremum('min'),
     'numpy.nanargmax': _arg_extremum('max'),
